@@ -268,9 +268,112 @@ def h_bmc(ctx, rounds, maxn, with_disable):
     return (len(lines), announced)
 
 
+# ----------------------------------------------------------------------------- the lines are the commands the options ask for
+
+
+def h_lines(ctx, target, full):
+    """The real exabgp(target) closure for every state it announces, every combination of the attribute options being set or
+    not (solver-chosen), two IPs.  Each line written is (1) compared with the command the option documentation calls for in that
+    state and (2) handed to the real route parser (the one the API uses): it must parse and carry the configured metric,
+    local-preference, communities, as-path and next hop of THAT state."""
+    wod = bool(ctx.bool('withdraw_on_down'))
+    kw = {}
+    extras = None if full else bool(ctx.bool('other-options'))   # quick tier: the options without state logic are set together
+
+    def opt(name):
+        return bool(ctx.bool(name)) if extras is None else extras
+    if bool(ctx.bool('community')):
+        kw['community'] = '65000:1 65000:2'
+    if bool(ctx.bool('disabled_community')):
+        kw['disabled_community'] = '65000:666'
+    if opt('extended_community'):
+        kw['extended_community'] = 'target:65000:100'
+    if opt('large_community'):
+        kw['large_community'] = '65000:1:2'
+    if bool(ctx.bool('as_path')):
+        kw['as_path'] = '65000 65001'
+    if bool(ctx.bool('state_as_path')):
+        kw['up_as_path'], kw['down_as_path'], kw['disabled_as_path'] = '65010', '65020 65020', '65030 65030 65030'
+    if opt('local_preference'):
+        kw['local_preference'] = 200
+    if opt('next_hop'):
+        kw['next_hop'] = '192.0.2.254'
+    if opt('path_id'):
+        kw['path_id'] = 7
+    if opt('neighbors'):
+        kw['neighbors'] = ['192.0.2.10', '192.0.2.11']
+    ips = ('192.0.2.1/32', '192.0.2.2/32')
+    out = Out()
+    hc.sys = type('S', (), {'stdout': out, 'stdin': None})
+    opts = mk_options(2, 2, False, wod, ips=ips, disable='/x', increase=3, **kw)
+    exabgp, trigger, one = lifted()(opts)
+    exabgp(target)
+    lines = out.lines
+    info = {'target': target.value, 'options': dict(kw, withdraw_on_down=wod), 'lines': lines}
+    ctx.check('one-line-per-ip', len(lines) == len(ips), sig='C20:lines:count', info=info)
+    name = target.value.lower()
+    base = {'up': 100, 'down': 1000, 'disabled': 500}.get(name, 0)
+    announce = target is States.UP or (not wod and target is not States.EXIT)
+    for i, line in enumerate(lines[:len(ips)]):
+        want = 'peer 192.0.2.10, peer 192.0.2.11' if 'neighbors' in kw else 'peer *'
+        want += ' announce' if announce else ' withdraw'
+        want += ' route %s next-hop %s' % (ips[i], kw.get('next_hop', 'self'))
+        community = None
+        as_path = None
+        if announce:
+            want += ' med %d' % (base + 3 * i)
+            if 'local_preference' in kw:
+                want += ' local-preference 200'
+            community = kw.get('community')
+            if target in (States.DOWN, States.DISABLED) and 'disabled_community' in kw:
+                community = kw['disabled_community']      # --disabled-community: "announce IPs with the supplied community when disabled"
+            if community:
+                want += ' community [ %s ]' % community
+            if 'extended_community' in kw:
+                want += ' extended-community [ target:65000:100 ]'
+            if 'large_community' in kw:
+                want += ' large-community [ 65000:1:2 ]'
+            as_path = kw.get(name + '_as_path') or kw.get('as_path')
+            if as_path:
+                want += ' as-path [ %s ]' % as_path
+        if 'path_id' in kw:
+            want += ' path-information 7'
+        ctx.check('line-is-the-documented-command', line == want + '\n', sig='C20:lines:%s:not-the-command-the-options-ask-for' % name,
+                  info=dict(info, got=line, want=want + '\n'))
+        # (2) the real parser of API route commands accepts it and yields those values
+        def parsed(line=line, i=i, community=community, as_path=as_path):
+            from exabgp.configuration.configuration import Configuration
+            text = line.strip()
+            text = text[text.index(' route ') + 1:]
+            cfg = Configuration([])
+            routes = cfg.parse_route_text(text, 'announce' if announce else 'withdraw')
+            if len(routes) != 1:
+                return False
+            r = routes[0]
+            a = r.attributes
+            ok = str(r.nlri).startswith(ips[i].split('/')[0])
+            if announce:
+                ok = ok and ' med %d' % (base + 3 * i) in str(a)
+                ok = ok and (('local-preference 200' in str(a)) == ('local_preference' in kw))
+                if community:
+                    ok = ok and all(c in str(a) for c in community.split())
+                if as_path:
+                    ok = ok and all(x in str(a) for x in as_path.split())
+            return ok
+        ctx.witness_check('line-parses-to-the-configured-route', parsed, sig='C20:lines:%s:route-parser-disagrees' % name)
+    ctx.cover('lines-' + name)
+    if 'disabled_community' in kw and 'community' not in kw and target in (States.DOWN, States.DISABLED) and announce:
+        ctx.cover('disabled-community-alone')
+    return [name, sorted(kw), wod, len(lines)]
+
+
 def units(tier):
     th = tier == 'thorough'
-    us = [Unit('step/one', h_step, must_cover=('to-up', 'to-down'))]
+    us = [Unit('step/one', h_step, must_cover=('to-up', 'to-down')),
+          ]
+    for target in (States.UP, States.DOWN, States.DISABLED, States.EXIT):
+        cov = ('lines-' + target.value.lower(),) + (('disabled-community-alone',) if target in (States.DOWN, States.DISABLED) else ())
+        us.append(Unit('lines/%s' % target.value.lower(), lambda ctx, t=target: h_lines(ctx, t, th), must_cover=cov, weight=30 if th else 5, max_seconds=900))
     if th:
         us.append(Unit('bmc/r8', lambda ctx: h_bmc(ctx, 8, 9, False), must_cover=('went-up', 'went-down'), weight=50, max_seconds=1500, max_paths=400000))
         us.append(Unit('bmc/r6-disable', lambda ctx: h_bmc(ctx, 6, 4, True), must_cover=('went-up', 'went-down'), weight=40, max_seconds=1500, max_paths=400000))
